@@ -35,6 +35,18 @@ func (d *dir) Stat() (hackpadfs.FileInfo, error) {
 	return hackpadfs.Stat(d.fs, d.name)
 }
 
+// Seek implements hackpadfs.SeekerFile. Only rewinding the directory listing to its start is supported.
+func (d *dir) Seek(offset int64, whence int) (int64, error) {
+	if d.closed {
+		return 0, &hackpadfs.PathError{Op: "seek", Path: d.name, Err: hackpadfs.ErrClosed}
+	}
+	if offset != 0 || whence != io.SeekStart {
+		return 0, &hackpadfs.PathError{Op: "seek", Path: d.name, Err: hackpadfs.ErrInvalid}
+	}
+	d.offset = 0
+	return 0, nil
+}
+
 func (d *dir) ReadDir(n int) ([]hackpadfs.DirEntry, error) {
 	if d.closed {
 		return nil, &hackpadfs.PathError{Op: "readdir", Path: d.name, Err: hackpadfs.ErrClosed}
